@@ -375,6 +375,9 @@ def run_c14(tier, seed):
     locale_check(oc, [t for _, t in states if any(ord(ch) > 127 for ch in t)][:25] + [t for _, t in states][:5])
     # ... and written out by the command line (stdout in three encodings, -o file), read back
     cli_written_out(oc)
+    # ... and by a collection: read back through a collection, merged twice (one completion record)
+    from . import coll_family
+    coll_family.reuse_and_remerge_check(oc, 'C14')
     # model: serialize byte for byte
     resps = lean.run_batch([{'op': 'serialize', 'doc': t} for t, _ in states])
     for (tree, text), r in zip(states, resps):
